@@ -41,8 +41,9 @@ class NonZero(Ob):
 
 
 class Holds(Ob):
-    def __init__(self, name, clause, ok, detail='', witness=None, kind='ensures', definite=True):
-        Ob.__init__(self, name, clause, ok=bool(ok), detail=detail, witness=witness, kind=kind, definite=definite)
+    def __init__(self, name, clause, ok, detail='', witness=None, kind='ensures', definite=True, replay_fn=None):
+        # replay_fn: () -> (replayed, replay record); called only if the clause fails
+        Ob.__init__(self, name, clause, ok=bool(ok), detail=detail, witness=witness, kind=kind, definite=definite, replay_fn=replay_fn)
 
 
 class ConstEq(Ob):
@@ -56,6 +57,13 @@ class E:
     def __init__(self, v, canon=True):
         self.e = sp.Symbol(v) if isinstance(v, str) else sp.sympify(v)
         self.canon = canon
+
+
+class Raw:
+    """arbitrary cell content (used by the limb-range typing, whose cells hold interval vectors)"""
+
+    def __init__(self, v):
+        self.v = v
 
 
 class Heap:
@@ -77,6 +85,14 @@ class Heap:
         o = self.ex.new_obj(self._felem_type(), label or str(sym), kind='felem')
         o.size_sym = 'nbytes'
         self.ex.p.mem[(o.id, ())] = FE(e.e, self.family == 'mont')
+        return PtrV(o.id)
+
+    def cell(self, content, label):
+        """pointer to a fresh limb array holding arbitrary content"""
+        o = self.ex.new_obj(self._felem_type(), label, kind='felem')
+        o.size_sym = 'nbytes'
+        if content is not None:
+            self.ex.p.mem[(o.id, ())] = content
         return PtrV(o.id)
 
     def temp(self, label):
@@ -121,7 +137,12 @@ class Heap:
             if nm not in ftypes:
                 raise Unsupported('contract sets field %s.%s which the real struct does not have' % (typename, nm))
             ft = ftypes[nm]
-            if isinstance(v, E):
+            if isinstance(v, Raw):
+                if ft.kind == 'array':
+                    self.ex.p.mem[(o.id, (nm,))] = v.v
+                else:
+                    self.ex.p.mem[(o.id, (nm,))] = self.cell(v.v, '%s.%s' % (label, nm))
+            elif isinstance(v, E):
                 if ft.kind == 'array':
                     self.ex.p.mem[(o.id, (nm,))] = FE(v.e, v.canon and self.family == 'mont')
                 elif ft.kind == 'ptr':
@@ -221,10 +242,6 @@ class PathView:
             return False
         return None
 
-    def leaked(self):
-        """heap objects allocated during the call that are neither freed nor reachable from `roots` -- filled by check"""
-        return self._leaked
-
 
 class FnContract:
     area = ''
@@ -246,6 +263,14 @@ class FnContract:
     def sample(self, rng):
         """random VALID input over the real field: (assignment {symbol name: int}, p, meta) or None"""
         return None
+
+    def candidates(self, rng):
+        """inputs tried when a concrete model of a path condition is needed; contracts add special values (off-curve, zero)"""
+        for _ in range(12):
+            s = self.sample(rng)
+            if s is None:
+                return
+            yield s
 
     def witness(self, pv, ob, assignment, p, meta):
         """(witness json, replay json, replayed bool) for a violated obligation at the failing sample"""
